@@ -14,3 +14,10 @@ package co
 //@ func (*Coroutine).IsStart
 //@   ensures result == (c.isStart && len(c.list) == 0)
 //@   assigns nothing
+
+// Cycle runs closures of the client package: used through a havoc contract.
+// Preserved: the wiring of the client's CPU (fields never assigned outside
+// constructors, checked syntactically over the client package).
+//@ func (*Coroutine).Cycle
+//@   havoc
+//@   preserves caller.CPU, caller.[]*executeUnit, caller.[]*writeUnit, caller.[]*cacheController, caller.fetchUnit, caller.decodeUnit, caller.controlUnit, caller.executeUnit, caller.writeUnit
